@@ -13,14 +13,14 @@ package starlarkstruct
 //@ func Struct.Freeze
 //@   prop C04 C05
 //@   requires s != nil
-//@   modifies starlark.List.frozen, starlark.hashtable.frozen, Struct.frozen, $mem:bool, $ghost:frz
+//@   modifies starlark.List.frozen, starlark.hashtable.frozen, starlark.Function.frozen, Struct.frozen, $mem:bool, $ghost:frz
 //@   invariant 1 rangeindex >= -1 && s.frozen && forall(k, 0, rangeindex + 1, frz(s.entries[k].value)) && frzmono() && mono(starlark.List.frozen) && mono(starlark.hashtable.frozen)
 //@   ensures ghost: frz(s)
 //@   ensures s.frozen && frzmono() && mono(starlark.List.frozen) && mono(starlark.hashtable.frozen)
 //@   ensures fields: !old(s.frozen) ==> forall(k, 0, len(s.entries), frz(s.entries[k].value))
 //@ func Module.Freeze
 //@   prop C04
-//@   modifies starlark.List.frozen, starlark.hashtable.frozen, Struct.frozen, $mem:bool, $ghost:frz
+//@   modifies starlark.List.frozen, starlark.hashtable.frozen, starlark.Function.frozen, Struct.frozen, $mem:bool, $ghost:frz
 //@   ensures ghost: frz(m)
 //@ func FromKeywords
 //@   prop C04
